@@ -257,6 +257,9 @@ def _execute(scn, want_events=False):
                         cls = ebb3_motion.EBBMotionWrap if op.get('cls', 'EBBMotionWrap') == 'EBBMotionWrap' \
                             else ebb3_serial.EBB3
                         objs[k] = cls()
+                        if op.get('min_version'):
+                            # an application that insists on a newer firmware than the library's own minimum
+                            objs[k].MIN_VERSION_STRING = op['min_version']
                         rec['after'] = obj_snapshot(objs[k])
                     elif kind == 'call':
                         obj = objs[op['obj']]
@@ -310,6 +313,8 @@ def _execute(scn, want_events=False):
                             ln = world.link_by_port(op['port'])
                             ln.device.power_on()
                             ln.rx.clear()
+                        elif what == 'idle':
+                            world.now += int(op['seconds'] * 1000000)      # nothing happens for a while
                         elif what == 'rename':
                             # the board was given another nickname and re-enumerated: its USB descriptors change
                             dev = world.link_by_port(op['port']).device
